@@ -10,7 +10,7 @@ from . import httplib as H
 OCAML = H.OCAML
 GO = H.GO
 PROP = "props/C14.v"
-PROOFS = ["proofs/HttpDrainProofs.v", "model/HttpDrain.v", "lib/LTS.v"]
+PROOFS = list(dict.fromkeys(["proofs/HttpDrainProofs.v", "model/HttpDrain.v", "lib/LTS.v"] + H.PROTO_PROOFS + H.MODEL_FILES))
 HOW = "build/bin/http -family drain -case <file with the case JSON> | build/bin/http_model"
 
 
@@ -20,7 +20,7 @@ def shape(c):
     cls = []
     for d in c.get("ds") or []:
         cls.append("short" if d + 40 < dr else ("long" if d > dr + 40 else "near"))
-    return "%s:drain=%d:%s" % (c["trigger"], dr, "+".join(sorted(cls)) or "idle")
+    return "%s%s:drain=%d:%s" % (c["trigger"], "+after-reload" if c.get("pre_reload") else "", dr, "+".join(sorted(cls)) or "idle")
 
 
 def run(run):
